@@ -238,6 +238,9 @@ def strategy_spec():
         st.fixed_dictionaries({"c": st.just("CmaStrategy"), "npixels": st.one_of(st.none(), st.integers(1, 1000)), "popsize": st.one_of(st.none(), st.integers(2, 100)),
                                "resample": st.booleans(), "parent_fraction": gen.rounded(0.05, 0.9, 3), "tols": st.sampled_from([{}, {"maxiter": 10}, {"tolx": 1e-3, "tolfun": 1e-5}]),
                                "seed": st.one_of(st.none(), st.integers(0, 2 ** 31)), "parallel": st.sampled_from(["auto", None])}),
+        st.fixed_dictionaries({"c": st.just("TemperedStrategy"), "nwalkers": st.integers(2, 200), "nsamples": st.integers(1, 5000), "npixels": st.integers(20, 2000),
+                               "min_pixels": st.one_of(st.none(), st.integers(1, 20)), "stages": st.integers(1, 5), "stage_len": st.integers(1, 100),
+                               "parallel": st.sampled_from(["auto", None]), "seed": st.one_of(st.none(), st.integers(0, 2 ** 31))}),
         st.fixed_dictionaries({"c": st.just("LimitOverlaps"), "fraction": _f}),
     )
 
@@ -254,7 +257,33 @@ def build_strategy(d):
     if c == "CmaStrategy":
         return I.CmaStrategy(npixels=d["npixels"], popsize=d["popsize"], resample_pixels=d["resample"], parent_fraction=d["parent_fraction"], tols=dict(d["tols"]),
                              seed=d["seed"], parallel=d["parallel"])
+    if c == "TemperedStrategy":
+        return I.TemperedStrategy(nwalkers=d["nwalkers"], nsamples=d["nsamples"], npixels=d["npixels"], min_pixels=d["min_pixels"], stages=d["stages"],
+                                  stage_len=d["stage_len"], parallel=d["parallel"], seed=d["seed"])
     return I.LimitOverlaps(d["fraction"])
+
+
+def full_state(v, depth=0):
+    """Everything an object carries (all instance attributes, recursively), not only what it chooses to save:
+    the reloaded object must behave like one built afresh from the same constructor arguments."""
+    from holopy.core.holopy_object import HoloPyObject
+    if depth > 8:
+        return ("deep",)
+    if isinstance(v, HoloPyObject):
+        return (type(v).__name__, tuple(sorted((k, full_state(x, depth + 1)) for k, x in vars(v).items())))
+    if isinstance(v, (list, tuple)):
+        return ("seq", tuple(full_state(x, depth + 1) for x in v))
+    if isinstance(v, np.ndarray):
+        return ("seq", tuple(full_state(x, depth + 1) for x in v.tolist())) if v.ndim else full_state(v.item(), depth + 1)
+    if isinstance(v, dict):
+        return ("dict", tuple(sorted((str(k), full_state(x, depth + 1)) for k, x in v.items())))
+    if callable(v) and not isinstance(v, np.ufunc) and "<locals>" in getattr(v, "__qualname__", ""):
+        # a function defined inside the constructor (e.g. CmaStrategy's weights): compare what it computes
+        try:
+            return ("localfunc", tuple(bool(v(i, 8)) if isinstance(v(i, 8), (bool, np.bool_)) else float(v(i, 8)) for i in range(8)))
+        except Exception:
+            return ("localfunc", getattr(v, "__qualname__", "?"))
+    return normalise(v, depth)
 
 
 def strat_obj(tier):
@@ -366,6 +395,14 @@ def run_obj(case):
         if n1 != n0:
             diff = _first_diff(n0, n1)
             return Outcome(failure("argument_changed", "%s: constructor argument differs after cycle %d: %s" % (cname, cyc + 1, diff), klass=cname), True, labels)
+    # beyond the saved arguments: the reloaded object carries the same state as one built afresh from the
+    # same constructor arguments (an argument that is consumed into other attributes must not be lost)
+    fresh = {"prior": lambda: build_prior(case["p"]), "scatterer": lambda: build_scat(case["s"]), "theory": lambda: build_theory(case["t"]),
+             "strategy": lambda: build_strategy(case["g"])}[what]()
+    f0, f1 = full_state(fresh), full_state(cur)
+    if f0 != f1:
+        return Outcome(failure("state_changed", "%s: reloaded object differs from one built from the same constructor arguments: %s"
+                               % (cname, _first_diff(f0, f1)), klass=cname), True, labels)
     # the text is a fixpoint after the first cycle
     again = roundtrip(cur, case["route"])[1]
     if again != texts[0] or any(t != texts[0] for t in texts):
@@ -398,7 +435,8 @@ def _first_diff(a, b, path=""):
 def strat_model(tier):
     from .c11 import strat_map
     return st.tuples(strat_map(tier), st.sampled_from(["path", "stream"]), st.integers(1, 2), st.booleans(),
-                     st.one_of(st.none(), st.floats(0.05, 0.9))).map(lambda t: dict(t[0], route=t[1], cycles=t[2], tie=t[3], constraint=t[4]))
+                     st.one_of(st.none(), st.floats(0.05, 0.9)), st.sampled_from([None, None, "calc_field", "calc_intensity"])).map(
+        lambda t: dict(t[0], route=t[1], cycles=t[2], tie=t[3], constraint=t[4], calc_func=t[5]))
 
 
 def run_model(case):
@@ -409,6 +447,13 @@ def run_model(case):
     labels = [type(model).__name__, case["scat"]["k"], case["route"]]
     if case["constraint"] is not None:
         model.constraints = [LimitOverlaps(case["constraint"])]
+    if case.get("calc_func") and type(model).__name__ == "ExactModel":
+        # a custom calculation function is a constructor argument of ExactModel
+        import holopy.scattering as hs
+        from holopy.inference import ExactModel
+        model = ExactModel(model.scatterer, calc_func=getattr(hs, case["calc_func"]), theory=model.theory, constraints=model.constraints,
+                           **{k: v for k, v in model._find_optics(model._parameters, None).items() if v is not None})
+        labels.append("custom_calc_func")
     if case["tie"]:
         # tie two equal parameters when the template offers them
         names = list(model._parameter_names)
@@ -445,6 +490,9 @@ def run_model(case):
         return Outcome(failure("model_value_to_place", "optics differ after reload"), True, labels)
     if case["constraint"] is not None and [normalise(c) for c in cur.constraints] != [normalise(c) for c in model.constraints]:
         return Outcome(failure("model_constraints", "constraints %r -> %r" % (model.constraints, cur.constraints)), True, labels)
+    if getattr(cur, "calc_func", None) is not getattr(model, "calc_func", None):
+        return Outcome(failure("model_calc_func", "ExactModel calc_func %r reloaded as %r" % (getattr(model.calc_func, "__name__", model.calc_func),
+                                                                                              getattr(getattr(cur, "calc_func", None), "__name__", None))), True, labels)
     text2 = roundtrip(cur, case["route"])[1]
     if text2 != first_text or text != first_text:
         return Outcome(failure("text_not_fixpoint", "model: saving the reloaded model gives different text", klass="model"), True, labels)
